@@ -103,6 +103,12 @@ class StmtMixin:
             v = self.eval(st.value)
         finally:
             self._expect = None
+        hint = None
+        if len(st.targets) == 1 and isinstance(st.targets[0], ast.Name):
+            t = self.cur_local_types().get(st.targets[0].id)
+            hint = ty.parse(t) if t else None
+        if isinstance(hint, ty.TRef) and isinstance(v, VRef) and v.typ == ty.ANY:
+            v = VRef(v.term, hint, v.st)       # sidecar local type: the opaque value is an instance of that class
         for tgt in st.targets:
             self.assign(tgt, v)
 
